@@ -65,7 +65,42 @@ def _float_literals(a):
     return walk(a.expression)
 
 
+def layout_part(chk: Check):
+    """both back ends address the fields of taco_tensor_t: the C back end through the published header, the LLVM
+    back end through `type_to_llvm_tensor` + `attribute_indexes` (getelementptr by field NUMBER). The byte offsets
+    the two assign to every attribute the IR can name must coincide on this target (and the element sizes of the
+    arrays behind them: int32 indices, double values)."""
+    import llvmlite.binding as llvm
+    from tensora.codegen._type_to_llvm import attribute_indexes, llvm_float_type, llvm_integer_type, type_to_llvm
+    from tensora.compile._cffi_ownership import tensor_cdefs
+    from tensora.ir import types
+
+    import tensora.compile  # noqa: F401 - initialises the native target the way the library does
+    tm = llvm.Target.from_default_triple().create_target_machine()
+    td = tm.target_data
+    mod = llvm.parse_assembly(f"%t = type {type_to_llvm(types.tensor)}\n@g = external global %t\n")
+    struct_ty = mod.get_global_variable("g").type.element_type if hasattr(mod.get_global_variable("g").type, "element_type") else None
+    gv_ty = mod.get_struct_type("t") if struct_ty is None else struct_ty
+    bad = 0
+    for name, idx in attribute_indexes.items():
+        off_llvm = td.get_element_offset(gv_ty, idx)
+        off_c = tensor_cdefs.offsetof("taco_tensor_t", name)
+        chk.count("layout_fields_checked")
+        if off_llvm != off_c:
+            bad += 1
+            chk.violation("the LLVM back end and the published C header place a taco_tensor_t field at different offsets",
+                          {"field": name, "llvm_field_index": idx}, expected=off_c, got=off_llvm)
+    if td.get_abi_size(gv_ty) != tensor_cdefs.sizeof("taco_tensor_t"):
+        chk.count("layout_total_size_differs")
+    sizes = {"int32_t": (tensor_cdefs.sizeof("int32_t"), llvm_integer_type.width // 8), "double": (tensor_cdefs.sizeof("double"), 8)}
+    for nm, (c, l) in sizes.items():
+        if c != l:
+            chk.violation("element size differs between the back ends", {"type": nm}, expected=c, got=l)
+    chk.corr("taco_tensor_t-layout", len(attribute_indexes), bad)
+
+
 def run(chk: Check, drv: Driver):
+    layout_part(chk)
     chk.cov["rule"] = (
         "sampled problems (curated + random, incl. right-nested sums/products) x formats x inputs with general finite doubles "
         "(0.1, 1e16, -1e16, 1e-7, 1e300, +-0.0, ...) x back ends {gcc via cffi, LLVM MCJIT, Lean IR machine}; "
